@@ -98,6 +98,21 @@ pub const DEVIATIONS: &[Dev] = &[
         b.rename = Some("stamped-on".into());
         rect_fields(f).push(b);
     }),
+    // references that instantiate a generic user type (declaring one is another feature)
+    ("generic-instantiations", |f, _| {
+        let mut w = Item::strukt("Wrapper", vec![Field::new("inner", Ty::Param("W".into()))]);
+        w.generics = vec!["W".into()];
+        f.items.push(w);
+        let mut p2 = Item::strukt("Two", vec![Field::new("l", Ty::Param("L".into())), Field::new("r", Ty::Param("R".into()))]);
+        p2.generics = vec!["L".into(), "R".into()];
+        f.items.push(p2);
+        let wrap = |t: Ty| Ty::Generic("Wrapper".into(), vec![t]);
+        fields(f, "Person").push(Field::new("page", wrap(Ty::Prim("String"))));
+        fields(f, "Person").push(Field::new("maybe", Ty::Option(Box::new(wrap(Ty::Prim("u32"))))));
+        fields(f, "Person").push(Field::new("by_name", Ty::Map(Box::new(Ty::Prim("String")), Box::new(Ty::Generic("Two".into(), vec![Ty::Prim("u32"), wrap(Ty::Prim("bool"))])))));
+        rect_fields(f).push(Field::new("wrapped", Ty::Vec(Box::new(wrap(Ty::Prim("String"))))));
+        variants(f, "Shape").push(Variant::new("Boxed", VKind::Newtype(Ty::Generic("Two".into(), vec![Ty::Prim("String"), Ty::Prim("u32")]))));
+    }),
     // one file per crate: backends derive package / module lines from the crate name
     ("multi-file-mode", |_, c| c.multi_file = true),
     ("field-dashed-rename", |f, _| fields(f, "Person")[0].rename = Some("full-name".into())),
